@@ -5,10 +5,21 @@
 // sees only the copy of string.cpp.
 #include <cstddef>
 #include <string>
+// Round 3b: the copy of string.cpp is declared by no header, i.e. it is an internal symbol: the
+// references are WEAK, so a library that drops / renames the copy still links; the `dstr` op then
+// judges the declared implementations only (tag dstr-cpp-copy-absent).
 namespace igris
 {
-    std::string dstring(const void *data, size_t size);
-    std::string dstring(const std::string &buf);
+    std::string dstring(const void *data, size_t size) __attribute__((weak));
+    std::string dstring(const std::string &buf) __attribute__((weak));
+}
+typedef std::string (*c19_f1)(const void *, size_t);
+typedef std::string (*c19_f2)(const std::string &);
+bool c19_dstring_cpp_present()
+{
+    c19_f1 volatile a = &igris::dstring;
+    c19_f2 volatile b = &igris::dstring;
+    return a != nullptr && b != nullptr;
 }
 std::string c19_dstring_cpp(const void *data, size_t size) { return igris::dstring(data, size); }
 std::string c19_dstring_cpp_str(const std::string &s) { return igris::dstring(s); }
